@@ -803,9 +803,17 @@ def gen_random(rng, tier):
             ops.append(("flush",))
         else:
             ops.append(("commit",))
+    ops.extend(probes(rng.randrange(2), rng.randint(0, 2)))
     ops.append(("q", "on", ("all", 0), "execute"))
     ops.append(("q", "on", ("all", 1), "execute"))
     return n, ops
+
+
+def probes(t, v):
+    """observation of the DATABASE as it is (counts inside no_autoflush): exposes whether the
+    operations before it flushed — the twin session, which flushes explicitly wherever the property
+    says an autoflush happens, must show the same"""
+    return [("cnt", "ctx", ("all", t), "execute"), ("ccnt", "ctx", ("a", t, v), "scalars")]
 
 
 SMALL_PREFIX = [("add", 0, 0, 1, None), ("add", 1, 0, 1, 0), ("commit",), ("q", "on", ("all", 0), "execute"), ("q", "on", ("all", 1), "execute")]
@@ -826,7 +834,7 @@ def small_scope(length):
 
     alpha = SMALL_WRITES + SMALL_READS + SMALL_OTHER
     for seq in itertools.product(alpha, repeat=length):
-        yield SMALL_PREFIX + list(seq) + [("q", "on", ("all", 1), "execute")]
+        yield SMALL_PREFIX + list(seq) + probes(1, 2) + [("q", "on", ("all", 1), "execute")]
 
 
 def entry_matrix(thorough=False):
@@ -843,7 +851,7 @@ def entry_matrix(thorough=False):
                 for m in ("on", "opt", "ctx") if (thorough or wi in (1, 2, 5)) else ("on",):
                     q = qs[j % 4]
                     j += 1
-                    yield SMALL_PREFIX + ws + [(kind, m, q, via), (kind, "on", q, vias_of(kind)[0]), ("q", "on", ("all", 1), "execute")]
+                    yield SMALL_PREFIX + ws + [(kind, m, q, via)] + probes(1, 2) + [(kind, "on", q, vias_of(kind)[0]), ("q", "on", ("all", 1), "execute")]
 
 
 def gen_cases(ctx, deep=False):
@@ -854,8 +862,10 @@ def gen_cases(ctx, deep=False):
         yield {"n": n, "af": ctx.rng.choice([1, 1, 1, 0]), "ops": ops, "src": "random"}
     for seq in entry_matrix(thorough):
         yield {"n": 2, "af": 1, "ops": seq, "src": "entry-matrix"}
+    nfix = len(SMALL_PREFIX)
     for seq in small_scope(2):
-        if thorough or ctx.rng.random() < 0.5:
+        # every (pending change, reading operation) pair; the other pairs sampled in the quick tier
+        if thorough or (seq[nfix] in SMALL_WRITES and seq[nfix + 1] in SMALL_READS) or ctx.rng.random() < 0.4:
             yield {"n": 2, "af": 1, "ops": seq, "src": "small2"}
     for seq in small_scope(3):
         if thorough or ctx.rng.random() < 0.015:
@@ -881,8 +891,15 @@ def check_case(case):
         if len(touts) == len(outs):
             for j, (op, a, b) in enumerate(zip(case["ops"], outs, touts)):
                 if op[0] in READ_KINDS and a != b:
-                    problems.append((DIFF_KEY[op_via(op)] if op[0] in KINDS else "autoflush-differs-from-explicit-flush",
-                                     "op #%d %s: autoflushing session -> %s, flush()-then-query -> %s" % (j, op, a, b)))
+                    key = DIFF_KEY[op_via(op)] if op[0] in KINDS else "autoflush-differs-from-explicit-flush"
+                    if op[1] == "ctx":
+                        # the observing op cannot flush: an earlier autoflushing operation did not do what flush() does
+                        prev = [o for o in case["ops"][:j] if o[0] in READ_KINDS and (o[1] == "on" or (o[1] == "opt" and o[0] in CORE_KINDS))]
+                        if prev:
+                            key = "unflushed-state-after-autoflushing-%s" % (
+                                "%s-via-%s" % (prev[-1][0], op_via(prev[-1])) if prev[-1][0] in KINDS else prev[-1][0]
+                            )
+                    problems.append((key, "op #%d %s: autoflushing session -> %s, flush()-then-query -> %s" % (j, op, a, b)))
                     break
         elif not tprobs:
             problems.append(("autoflush-differs-from-explicit-flush", "histories diverge: %s vs %s" % (outs, touts)))
@@ -909,7 +926,7 @@ def run(ctx, deep=False):
         "Query.all/first/one_or_none|scalar/count), Session.get and lazy loads, each with autoflush on / execution option off / no_autoflush, plus "
         "flush/commit, on a real Session over SQLite (2-4 ids x 2 tables); random (seeded) + the exhaustive matrix {9 pending-change sets} x {kind x "
         "entry point} (mode on; x {3 modes} for 3 of the sets quick / all thorough) with the statement as the FIRST one after the change + 2-op "
-        "(50% quick / all thorough) and 3-op (1.5% quick / all thorough) sequences over a 26-letter alphabet; every autoflush=True history is run twice (autoflush vs explicit flush + no_autoflush); "
+        "(all change-then-read pairs + 40% of the rest quick / all thorough) and 3-op (1.5% quick / all thorough) sequences over a 26-letter alphabet, every generated history ending with no_autoflush count probes that expose whether the operations before them flushed; every autoflush=True history is run twice (autoflush vs explicit flush + no_autoflush); "
         "non-trivial = at least one reading operation executed with pending changes"
     )
     ctx.trusted.append(
